@@ -712,6 +712,8 @@ struct FieldParser<'a> {
     shift: usize,
     chunk: Vec<(usize, usize, &'a ast::Field)>,
     unchecked_code: CodeBlock,
+    /// Offset up to which the length of the span has been checked.
+    checked_offset: usize,
     code: CodeBlock,
 }
 
@@ -731,6 +733,7 @@ impl<'a> FieldParser<'a> {
             shift: 0,
             chunk: Vec::new(),
             unchecked_code: CodeBlock::default(),
+            checked_offset: 0,
             code: CodeBlock::default(),
         }
     }
@@ -764,6 +767,7 @@ if len(span) < {size}:
             let unchecked_code = std::mem::take(&mut self.unchecked_code.lines);
             let offset = self.offset;
             self.check_size(offset.to_string());
+            self.checked_offset = offset;
             self.code.lines.extend(unchecked_code);
         }
     }
@@ -772,8 +776,14 @@ if len(span) < {size}:
         if self.offset > 0 {
             self.check_code();
             let offset = self.offset;
+            // Octets that only hold reserved bits produce no code to check:
+            // their presence still has to be validated before skipping them.
+            if offset > self.checked_offset {
+                self.check_size(offset.to_string());
+            }
             self.code.append(format!("span = span[{}:]", offset - keep));
             self.offset = 0;
+            self.checked_offset = 0;
         }
     }
 
